@@ -5007,6 +5007,60 @@ func ruleAccessOwnsItsBookkeeping(r *Run, rule string) {
 				_ = own
 			}
 		}
+		// (c) the step that completes an access — it runs the release closure handed out with the lock (a call of a
+		// func-typed field of the unit) — returns a coroutine of the unit to its start in the same statement list:
+		// a completed access left suspended at its last continuation runs that continuation again at the next step
+		for _, f := range v.pkg.Syntax {
+			for _, d := range f.Decls {
+				fd, ok := d.(*ast.FuncDecl)
+				if !ok || fd.Body == nil || strings.EqualFold(fd.Name.Name, "flush") {
+					continue
+				}
+				n := 0
+				ast.Inspect(fd.Body, func(k ast.Node) bool {
+					blk, ok := k.(*ast.BlockStmt)
+					if !ok {
+						return true
+					}
+					releases, resets := false, false
+					for _, st := range blk.List {
+						es, ok := st.(*ast.ExprStmt)
+						if !ok {
+							continue
+						}
+						c, ok := es.X.(*ast.CallExpr)
+						if !ok {
+							continue
+						}
+						sel, ok := c.Fun.(*ast.SelectorExpr)
+						if !ok {
+							continue
+						}
+						if s2 := info.Selections[sel]; s2 != nil && s2.Kind() == types.FieldVal && len(c.Args) == 0 {
+							if _, isF := s2.Obj().Type().Underlying().(*types.Signature); isF {
+								if rt := namedOf(s2.Recv()); rt != nil && structOf(rt) != nil {
+									// the field belongs to a unit that owns coroutine fields
+									st := structOf(rt)
+									for i := 0; i < st.NumFields(); i++ {
+										if isCoroutineNamed(st.Field(i).Type()) {
+											releases = true
+										}
+									}
+								}
+							}
+						}
+						if sel.Sel.Name == "Reset" && isCoroutineNamed(info.TypeOf(sel.X)) {
+							resets = true
+						}
+					}
+					if releases {
+						n++
+						r.check(resets, rule, fmt.Sprintf("%s.%s:completion-resets#%d", v.rel, declName(fd), n), blk.Pos(), "the step that completes an access (it runs the release closure) returns the access coroutine to its start")
+					}
+					return true
+				})
+			}
+		}
 		// (b) per function that forgets a handle: the coroutine it resets in the same function names the access kind;
 		// the entry of that coroutine (and the methods it hands control to) must record handles in the table deleted from
 		semTable := func(e ast.Expr) *types.Var {
